@@ -751,13 +751,20 @@ PROPS["C19"] = {
             "the newest result and later calls must be unaffected; the big and last results of the 24 most recent histories (other "
             "objects and apis) are re-compared during every later history; constructors are additionally given inputs with 1, 2 and 8 "
             "leading zero bytes (all inputs and each alone, every accepted encoding) and the caller's buffer is overwritten afterwards; "
-            "the regenerated slice facts follow bytes.Trim*/Split*/Cut*/Fields, slices.Clip, bytes.NewBuffer/NewReader, append(p[:k],…) "
-            "and report results that alias a pooled / global / receiver-held buffer (return-internal); "
+            "the regenerated slice facts are entry-point summaries (helpers are summarised and applied at call sites, across "
+            "packages; names of locals / parameters are not part of a fact), follow bytes.Trim*/Split*/Cut*/Fields, slices.Clip, "
+            "bytes.NewBuffer/NewReader, append(p[:k],…), composite literals and field stores, and report results that alias a "
+            "pooled / global / receiver-held buffer (return-internal); "
             "Go's append/copy/Concat semantics are compared with the heap model; non-trivial = every line, "
             "distinct by line hash",
-    "trusted_base": [KERNEL, TIE, "the regenerated slice facts come from a syntactic extractor (go/ast + go/types) over all non-test "
-                     "packages: it sees direct uses of []byte parameters and their plain re-slices, not flows through other variables, "
-                     "struct fields or calls; the dynamic guard-region harness is the evidence for those",
+    "trusted_base": [KERNEL, TIE, "the regenerated slice facts come from an extractor (go/ast + go/types) over all non-test packages: "
+                     "flow-insensitive per-function summaries (what happens to the memory behind each []byte parameter / field of an "
+                     "options parameter / receiver field: written, appended to, retained, returned; which results alias pooled or "
+                     "receiver-held buffers), closed under calls of functions of the module by a fixpoint and reported for entry "
+                     "points (exported functions, methods with exported or interface names, functions used as values) in canonical "
+                     "form (positions, field and type names — no local names); calls through interfaces and function values are "
+                     "opaque; the extractor refuses when a package does not type-check; the dynamic guard-region harness is the "
+                     "evidence for the flows it cannot see",
                      "unsafe / assembly paths inside the Go standard library are out of scope"],
     "assumptions": ["the Lean theorems are about the slice model and the contract (what a violation looks like and why a contract-"
                     "respecting library is immune to caller mutations); that the code respects the contract is established by the "
@@ -781,7 +788,7 @@ PROPS["C19"] = {
 PROPS["C18"] = {
     "lean": ["TinkVerif.Props.C18", "TinkVerif.Props.C18Class", "TinkVerif.Props.C18Facts"],
     "theorems": T("TinkVerif.Conc", "run_shared interleave_eq_sequential schedule_independent steps_commute scratchMac_not_readOnly "
-                  "scratchMac_schedule_matters") + T("TinkVerif.Gen.MutFacts", "facts_classified scan_coverage allowances_used global_allowances_used field_allowances_used"),
+                  "scratchMac_schedule_matters") + T("TinkVerif.Gen.MutFacts", "facts_classified scan_coverage"),
     "harness": [{"name": "c18", "timeout": 3000, "race": True}],
     "reports": ["Reports/C18.lean"],
     "rule": "race-detector build: for every primitive class and key type in the pool, G goroutines × M calls on ONE shared primitive "
@@ -798,9 +805,12 @@ PROPS["C18"] = {
             "slice field together with the places where that field is handed out (classified one by one); "
             "non-trivial = every concurrent call whose result was compared, "
             "distinct by (primitive, operation, input) hash",
-    "trusted_base": [KERNEL, TIE, "the regenerated mutation facts come from a syntactic extractor (stores through receivers and their "
-                     "local aliases, mutator calls on receiver-held stateful std types, stores to package variables); mutation through "
-                     "other aliases, closures or callee-internal state is not seen by it — the race-detector harness covers those at run time",
+    "trusted_base": [KERNEL, TIE, "the regenerated mutation facts come from an extractor (go/ast + go/types): per-function summaries (stores "
+                     "through the receiver, its local aliases and sub-objects, mutator calls on receiver-held stateful std types, "
+                     "in-place rewrites and hand-outs of container fields, stores to / method calls on package variables) closed "
+                     "under calls of functions of the module by a fixpoint and reported for entry points in canonical form; "
+                     "mutation through interface calls, closures or other aliases is not seen by it — the race-detector harness "
+                     "covers those at run time; the extractor refuses when a package does not type-check",
                      "Go memory model, goroutine scheduler, race detector (happens-before based, sees only executed interleavings)"],
     "assumptions": ["the interleaving theorem is about the model: it shows why immutability after construction gives the property for "
                     "every schedule; that the code is immutable after construction is established by the regenerated facts, not proved",
